@@ -4,7 +4,7 @@
 Require Import PG.Base.Bytes PG.Base.GoSlice PG.Base.Value.
 Require Import PG.C02.Model PG.C02.Spec PG.C02.Pure PG.C02.SpecProofs PG.C02.Refine.
 Require Import PG.C03.Model PG.C03.Refine.
-Require Import PG.C10.Locality.
+Require Import PG.C10.Locality PG.C10.Cost.
 Require PG.Props.C02 PG.Props.C03 PG.Props.C04 PG.Props.C05 PG.Props.C06 PG.Props.C07 PG.Props.C13 PG.Props.C15 PG.Props.C16 PG.Props.C19 PG.Props.C20.
 
 (* ---- no panic: for ALL byte strings, ALL capacity tails, ALL schemas ---- *)
@@ -67,6 +67,16 @@ Print Assumptions C10_no_panic_blocks_checksums.
    theorem shows the fuel never runs out prematurely (the model result equals the total pure function) *)
 Theorem C10_scan_total : forall s v, obs_entries (ReadTuples s v) = Ok (p_file (vis s) v).
 Proof. exact ReadTuples_obs. Qed.
+
+(* cost: at most one reported entry per 4 input bytes, for ALL byte strings — output size, and with it the
+   scan's loop counts (pages = len/8192, line pointers <= (8192-24)/4 per page), are linear in the input *)
+Theorem C10_cost_scan : forall s v l,
+  ReadTuples s v = Ok l -> Z.of_nat (length l) <= len s / 4.
+Proof.
+  intros s v l H. pose proof (ReadTuples_obs s v) as O. rewrite H in O. cbn in O. injection O as O.
+  rewrite <- (map_length obs_entry l), O. apply scan_output_linear.
+Qed.
+Print Assumptions C10_cost_scan.
 
 (* ---- the result never depends on bytes beyond len (what follows the slice in memory) ---- *)
 Theorem C10_tail_independent_scan : forall v t1 t2 vo,
